@@ -6,7 +6,7 @@ import vbuild, driver
 from driver import HarnessError, VERIF, TMP
 
 FEN_218 = "R6R/3Q4/1Q4Q1/4Q3/2Q4Q/Q4Q2/pp1Q4/kBNN1KB1 w - - 0 1"
-FEN_100 = "1q1q1rk1/1p3ppp/8/8/3B4/1Q1Q4/Q4PPP/3QR1K1 w - - 0 1"   # five queens: well over 64 legal moves
+FEN_100 = "r2q1rk1/pp2bppp/2n1bn2/8/8/1QQ2QQ1/8/K2Q4 w - - 0 1"   # five queens v a defended king: 77 legal moves, no quick mate, so deep iterations see move numbers > 64
 FEN_KNIGHTS = "1NNNNNNN/P7/8/8/8/k7/8/N1N4K w - - 0 1"      # a7a8n gives the tenth knight
 FEN_QUEENS = "1QQQQQQQ/P7/8/8/8/Q7/Q5pp/K5bk w - - 0 1"    # a7a8q gives the tenth queen
 FEN_BARE = "8/8/8/3k4/8/3K4/8/8 w - - 0 1"
